@@ -130,14 +130,14 @@ DeleteCollOutcome(st, rq) ==
                       props |-> Drop(st.props, c)])
 
 \* PROPPATCH of one property: set (rq.set = TRUE, value rq.v) or remove.
-\* The server may refuse any individual property (propstat 403/404/409);
-\* what C15 demands is about the case where it *reports success*.
+\* The server may refuse any individual property (propstat 403/404/409) - which
+\* properties a collection kind supports is its business (PropOK documents the
+\* usual table and is used by the model checker to generate refusals); what
+\* C15 demands is about the case where it *reports success*.
 ProppatchOutcome(st, rq) ==
     LET c == rq.c  p == rq.p IN
     IF ~Exists(st, c)
       THEN MustFail(st, "nocoll", {"notfound", "refused"})
-    ELSE IF ~PropOK(st.colls[c], p)
-      THEN MustFail(st, "propkind", {"refused", "notfound"})
     ELSE MustSucceed([st EXCEPT !.props[c] =
                         IF rq.set THEN Upd(@, p, rq.v) ELSE Drop(@, p)])
 
